@@ -6,7 +6,9 @@ package main
 
 import (
 	"fmt"
+	"math"
 	"os"
+	"reflect"
 	"runtime"
 	"sort"
 	"strings"
@@ -26,6 +28,8 @@ const (
 	mutNoInnerStore
 	mutDoneEarly
 	mutPanic
+	mutStoreCompare   // Store decides by current != value whether its closure supplied the value
+	mutStoreDeepEqual // Store skips the overwrite when the present value is reflect.DeepEqual to the new one
 )
 
 type inFlight struct {
@@ -93,15 +97,30 @@ func (m *mutMap) Load(key interface{}) (interface{}, bool) {
 
 func (m *mutMap) Store(key interface{}, value interface{}) {
 	stored := false
-	m.LoadOrStore(key, func() interface{} {
+	cur := m.LoadOrStore(key, func() interface{} {
 		hook(8)
 		stored = true
 		return value
 	})
+	switch m.mut {
+	case mutStoreCompare:
+		stored = !(cur != value)
+	case mutStoreDeepEqual:
+		stored = stored || reflect.DeepEqual(cur, value)
+	}
 	if !stored && m.mut != mutNoOverwrite {
 		hook(9)
 		m.m.Store(key, value)
 	}
+}
+
+func contains(l []string, s string) bool {
+	for _, x := range l {
+		if x == s {
+			return true
+		}
+	}
+	return false
 }
 
 func selftest() int {
@@ -117,6 +136,53 @@ func selftest() int {
 	}
 	singleP = runtime.GOMAXPROCS(0) == 1
 	stepDeadline = 300 * time.Millisecond
+
+	// ---- 0. value kinds: injective, decoded bit-exactly, and they contain what they are meant to contain
+	for _, k := range kinds {
+		okRound := true
+		for t := 0; t < maxToken; t++ {
+			if k.dec(k.enc(t)) != (obsv{oVal, t}) {
+				okRound = false
+			}
+		}
+		check(okRound, "value kind "+k.name+": dec(enc(token)) = token for every token")
+		panics := false
+		for _, t := range stdTokens {
+			if _, p := goEqual(k.enc(t), k.enc(t)); p {
+				panics = true
+			}
+		}
+		check(panics == !k.eqTotal, fmt.Sprintf("value kind %s: == panics on some value: %v, declared total: %v", k.name, panics, k.eqTotal))
+		check(k.dec(new(inFlight)).K == oPlaceholder && k.dec(nil).K == oNil && k.dec(struct{ a int }{1}).K == oPlaceholder, "value kind "+k.name+": foreign values are placeholders")
+	}
+	eqDistinct := func(kn string, a, b int) {
+		k := kindByName(kn)
+		eq, p := goEqual(k.enc(a), k.enc(b))
+		check(eq && !p && k.dec(k.enc(a)) != k.dec(k.enc(b)), fmt.Sprintf("value kind %s: tokens %d and %d are Go-== yet different tokens", kn, a, b))
+	}
+	eqDistinct("float64", 11, 12)
+	eqDistinct("float64-x", 11, 21)
+	eqDistinct("mixed", 11, 21)
+	eqDistinct("boxed", 11, 21)
+	for i, a := range stdTokens[:8] {
+		for _, b := range stdTokens[:i] {
+			eqDistinct("struct-float", a, b)
+		}
+	}
+	for i, a := range stdTokens[:4] {
+		for _, b := range stdTokens[:i] {
+			eqDistinct("complex128", a, b)
+		}
+	}
+	nanv := kindByName("float64").enc(21).(float64)
+	check(nanv != nanv && kindByName("float64").dec(nanv) == obsv{oVal, 21} && kindByName("float64").dec(math.Float64frombits(0x7ff8000000000003)).K == oPlaceholder &&
+		kindByName("float64").dec(kindByName("float64").enc(22)) == obsv{oVal, 22}, "value kind float64: a NaN decodes to its own token, another NaN payload does not")
+	check(reflect.DeepEqual(kindByName("pointer").enc(11), kindByName("pointer").enc(12)) && kindByName("pointer").enc(11) != kindByName("pointer").enc(12),
+		"value kind pointer: distinct allocations with equal contents")
+	check(reflect.DeepEqual(kindByName("slice").enc(11), kindByName("slice").enc(12)) && kindByName("slice").dec([]string{"host"}).K == oPlaceholder,
+		"value kind slice: equal contents, identity decides")
+	check(kindByName("float64").dec(0.0) == obsv{oVal, 11} && kindByName("float64").dec(negZero) == obsv{oVal, 12} && kindByName("int").dec(0.0).K == oPlaceholder,
+		"value kind float64: signed zeros are different tokens")
 
 	// ---- 1. the Go copy of the model on the run given in the task description
 	prog := program{{{kLos, 0, 11}}, {{kStore, 0, 21}, {kLoad, 0, 0}}}
@@ -229,6 +295,8 @@ func selftest() int {
 		mkProgram([]shape{{0}, {4, 2}}),    // los / store;load
 		mkProgram([]shape{{4}, {2}, {0}}),  // store / load / los
 		mkProgram([]shape{{0, 2}, {4, 0}}), // los;load / store;los
+		mkProgram([]shape{{4, 4, 2}}),      // sequential: store;store;load
+		mkProgram([]shape{{2, 4}, {3, 5}}), // load;store / load;store on the other key
 	}
 	var cases []*tcase
 	r := hx.NewRand(7)
@@ -255,26 +323,38 @@ func selftest() int {
 	expect := []struct {
 		mut  int
 		name string
-		want []string // signatures that must show up
+		want []string // signatures that must show up ("sig@kind": in a run with that value kind)
 		only bool     // and no others
+		all  bool     // run with every value kind (otherwise ints)
 	}{
-		{mutNone, "faithful copy", nil, true},
-		{mutNoWaitLos, "LoadOrStore does not Wait", []string{"wait-not-blocking"}, true},
-		{mutNoWaitLoad, "Load does not Wait", []string{"wait-not-blocking"}, true},
-		{mutLoadRaw, "Load returns the raw entry", []string{"placeholder-returned", "step-sequence"}, false},
-		{mutNoDone, "Done never called", []string{"blocked"}, false},
-		{mutNone, "faithful copy after goroutines were leaked", nil, true},
-		{mutNoOverwrite, "Store does not overwrite", []string{"step-sequence", "store-lost"}, false},
-		{mutNoInnerStore, "value never published to the map", []string{"step-sequence"}, false},
-		{mutDoneEarly, "Done before the value is written", []string{"wait-not-blocking"}, false},
-		{mutPanic, "panic inside LoadOrStore", []string{"panic"}, false},
+		{mutNone, "faithful copy", nil, true, false},
+		{mutNoWaitLos, "LoadOrStore does not Wait", []string{"wait-not-blocking"}, true, false},
+		{mutNoWaitLoad, "Load does not Wait", []string{"wait-not-blocking"}, true, false},
+		{mutLoadRaw, "Load returns the raw entry", []string{"placeholder-returned", "step-sequence"}, false, false},
+		{mutNoDone, "Done never called", []string{"blocked"}, false, false},
+		{mutNone, "faithful copy after goroutines were leaked", nil, true, false},
+		{mutNoOverwrite, "Store does not overwrite", []string{"step-sequence", "store-lost"}, false, false},
+		{mutNoInnerStore, "value never published to the map", []string{"step-sequence"}, false, false},
+		{mutDoneEarly, "Done before the value is written", []string{"wait-not-blocking"}, false, false},
+		{mutPanic, "panic inside LoadOrStore", []string{"panic:LoadOrStore:int"}, false, false},
+		{mutNone, "faithful copy, every value kind", nil, true, true},
+		{mutStoreCompare, "Store compares values instead of using its flag", []string{"panic:Store:slice", "panic:Store:map", "panic:Store:struct-slice",
+			"panic:Store:mixed", "panic:Store:boxed", "store-lost@float64", "store-lost@float64-x", "store-lost@struct-float", "store-lost@complex128",
+			"store-lost@mixed", "step-sequence@float64"}, false, true},
+		{mutStoreDeepEqual, "Store skips the overwrite of a deeply equal value", []string{"store-lost@pointer", "store-lost@slice", "store-lost@struct-slice",
+			"step-sequence@pointer"}, false, true},
+		{mutNone, "faithful copy, every value kind, after panics", nil, true, true},
 	}
 	for _, e := range expect {
 		mut := e.mut
 		m := &module{name: "selftest", site: "selftest", fresh: func() lazyMap { return &mutMap{mut: mut} }}
 		got := map[string]int{}
 		nblocked, nrun, nagree := 0, 0, 0
-		for _, tc := range cases {
+		ks := kinds[:1]
+		if e.all {
+			ks = kinds
+		}
+		for ci, tc := range cases {
 			if nblocked >= 3 {
 				break
 			}
@@ -282,16 +362,32 @@ func selftest() int {
 			for i, t := range tc.sched {
 				sc[i] = int(t)
 			}
-			o := runCase(m, tc.prog, sc, tc.probe)
-			nrun++
-			if o.agrees {
-				nagree++
+			for ki, vk := range ks {
+				if e.all && vk != intKind && len(tc.prog) > 1 && (ci+ki)%3 != 0 {
+					continue // concurrent programs: a third of the cases for each of the other kinds
+				}
+				o := runCase(m, tc.prog, sc, tc.probe, vk)
+				nrun++
+				if o.agrees {
+					nagree++
+				}
+				if o.abandoned {
+					nblocked++
+				}
+				for _, f := range append(append([]failure{}, o.fails...), oracle(tc.prog, o)...) {
+					got[f.sig]++
+					if e.all {
+						got[f.sig+"@"+vk.name]++
+					}
+				}
 			}
-			if o.abandoned {
-				nblocked++
-			}
-			for _, f := range append(append([]failure{}, o.fails...), oracle(tc.prog, o)...) {
-				got[f.sig]++
+		}
+		if e.all {
+			// per-kind counts are only looked up, not printed
+			for s := range got {
+				if strings.Contains(s, "@") && !contains(e.want, s) {
+					delete(got, s)
+				}
 			}
 		}
 		for _, w := range e.want {
